@@ -681,6 +681,7 @@ theorem mergeSort_eq_of_perm (m₁ m₂ : Items) (h : m₁.Perm m₂) :
 theorem dictHash_perm (kind : DictHashKind) (th : List Nat → Nat) (ih : Nat × Nat → Nat)
     (m₁ m₂ : Items) (h : m₁.Perm m₂) : dictHash kind th ih m₁ = dictHash kind th ih m₂ := by
   cases kind with
+  | sortedItems => simp only [dictHash, mergeSort_eq_of_perm m₁ m₂ h]
   | sortedItemsTypeAndValue => simp only [dictHash, mergeSort_eq_of_perm m₁ m₂ h]
   | unknown => rfl
 
